@@ -752,6 +752,20 @@ def correspond(ctx):
     except Exception as e:
         ctx.notes.append(f"coverage query failed: {e}")
     overlapping_launches(ctx)
+    scheduler_launches(ctx)
+
+
+def scheduler_launches(ctx):
+    """the sentences of the property on directories of jobs that the REAL scheduler launched (experiment -> aio_start ->
+    aio_run -> job script), with launchers whose submission call gives the hand back late (at once | fixed delay | only
+    once the job process is gone), bodies that end ok / with an exception / exit 3 / exit 0, and a second experiment on
+    the same workspace: see c10x_sched.py.  The crash-point cases above re-enact the scheduler side by hand (`launch`),
+    so what the scheduler itself does around the start of the process is only exercised here."""
+    from . import c10x_sched
+    ctx.rule += ("; plus scheduler-launched jobs: (how late the launcher's submission call returns: at once | 0.2-1.5 s | once the "
+                 "job process is gone) x (first execution ends ok | exception | exit 3 | exit 0) x body duration, 1-2 jobs per "
+                 "experiment, followed by a second experiment on the same workspace; nothing is killed (own exits only)")
+    c10x_sched.evaluate(ctx, c10x_sched.gen_cases(ctx, ctx.rng))
 
 
 def overlapping_launches(ctx):
@@ -808,15 +822,20 @@ def replay(ctx, obj):
     """re-run the failing inputs of a replay file with the implementation-only monitors"""
     tpl = get_template(ctx)
     cases = [f["case"] for f in obj.get("failures", []) if isinstance(f.get("case"), dict) and "scenario" in f["case"]]
+    sched = [f["case"]["sched"] for f in obj.get("failures", []) if isinstance(f.get("case"), dict) and "sched" in f["case"]]
+    if sched:  # histories of scheduler-launched jobs
+        from . import c10x_sched
+        c10x_sched.evaluate(ctx, sched)
     for d in obj.get("disagreements", []):
         if isinstance(d.get("case"), dict) and "scenario" in d["case"]:
             cases.append({k: v for k, v in d["case"].items() if k != "loc"})
-    if not cases:
+    if not cases and not sched:
         prove(ctx)
         correspond(ctx)
         return common.verdict(ctx, search)
     unreg = True
-    evaluate(ctx, tpl, [dict(c) for c in cases], unreg, with_model=False)
+    if cases:
+        evaluate(ctx, tpl, [dict(c) for c in cases], unreg, with_model=False)
     known = {f["key"] for f in common.load_findings(PROP) if f.get("status") == "known"}
     bad = [m for m in ctx.monitor_failures if m["key"] not in known]
     for m in ctx.monitor_failures:
@@ -824,5 +843,5 @@ def replay(ctx, obj):
     if bad:
         print(f"VIOLATION property={PROP} replay=reproduced")
         return 1
-    print(f"OK property={PROP} replay: {len(cases)} case(s) no longer fail")
+    print(f"OK property={PROP} replay: {len(cases) + len(sched)} case(s) no longer fail")
     return 0
